@@ -881,6 +881,19 @@ class GuardTr:
             kind = "ROk"
             if st.value is None or (isinstance(st.value, ast.Constant) and st.value.value in (None, False)):
                 kind = "RFalse"
+            if isinstance(st.value, ast.Call):
+                # `return self.m(...)` / `return _helper(...)` with a guarded callee: the callee's body is
+                # the rest of this operation (its guards are guards of this entry point too)
+                inl = self.inline_guarded(st.value, glob, loc)
+                if inl is not None:
+                    mk, fn, fglob, ploc = inl
+                    self.inline_depth += 1
+                    try:
+                        return self.seq(strip_doc(fn.body), retk("RFalse"), retk, mk, fglob, ploc)
+                    except Unsupported:
+                        pass
+                    finally:
+                        self.inline_depth -= 1
             g = retk(kind)
             if st.value is not None:
                 tx, nm = self.classify(st.value, glob)
